@@ -328,4 +328,12 @@ def exWins : List WinP :=
 example : (kData exWalls exWins [{ id := "t", l := 10, psi := 1 / 10 }, { id := "u", l := -5, psi := 1 }]).k
     = (20 * (1 / 2) + 20 * (3 / 10) + 4 * (57 / 10) + 1) / 44 := by decide +kernel
 
+
+/-- **net opaque area does not depend on the order of the window list**: the windows of a wall are found by their `wall` link wherever
+    they stand in the list (interleaved with the windows of other walls or not) -/
+theorem areaNet_perm (F : Fns) (w : Wall) (wins wins2 : List Window) (h : wins.Perm wins2) :
+    w.areaNet F wins = w.areaNet F wins2 := by
+  unfold Wall.areaNet Wall.areaNetRaw
+  rw [rsum_perm ((h.filter _).map _)]
+
 end Cte.C08
